@@ -29,6 +29,7 @@ func init() {
 			kvImportPropagates(r)
 			c17Pack(r)
 			compactionShape(r)
+			kvPutGrowsStore(r)
 		},
 	})
 }
